@@ -55,7 +55,11 @@ CHECKS.append(chk("C12", "fault_enumeration",
     "Generated ordered pairs (A,B) of recorded versions (incl. A after B, A=B, other writers' versions, multi-node trees sharing subtrees): s3db_changes(from=A,to=B) must return only rows of B, each once, and every row of B that is absent from or different in A, and must not fail; in fault mode the query is repeated with the p-th storage request of the diff failing for every p (exhaustive per pair): the query must fail or still satisfy both directions.",
     "property-based testing (rapid) with a two-sided set oracle + exhaustive single-fault enumeration per generated pair"))
 
-for pid in ["C03","C04","C05","C13","C14","C15","C17","C18","C19","C20"]:
+CHECKS.append(chk("C13", "exploration",
+    "Generated multi-writer histories with a table created with the readonly option on its own object-store client, driven through SELECT, s3db_refresh, s3db_version, an s3db_changes table over it, s3db_vacuum with any cutoff and INSERT/UPDATE/DELETE attempts inside and outside transactions while other writers keep committing; invariant after every step: that client's request log holds no PUT and no DELETE; write statements addressing at least one row fail; its rows equal the reference model of what was committed at its last open/refresh.",
+    "stateful property-based testing (rapid): invariant over the per-client request log of the fake object store + model"))
+
+for pid in ["C03","C04","C05","C14","C15","C17","C18","C19","C20"]:
     NOT_YET[pid] = "check under construction in this session (designed in DESIGN.md section 5); not claimed until its quick tier runs clean on the unchanged tree"
 
 MANIFEST = {
